@@ -5,7 +5,6 @@
   environment (names, rule tables) and every initial stack — no size bound.
 -/
 import FunsorVerif.Model.C17
-import FunsorVerif.Gen.C17Interps
 namespace FV.Props.C17
 open FV.C17
 
@@ -689,5 +688,55 @@ theorem allTotal_enterClosed : EnterClosed AllTotal := by
 theorem stack_stays_total (env : Env) (p : Prog) (st : St) (h : AllTotal st.stack) :
     ∃ new, (exec env p st).2.log = new ++ st.log ∧ ∀ o ∈ new, AllTotal o.stack :=
   exec_obs_invariant AllTotal allTotal_enterClosed env p st h
+
+
+/-! ### the hypotheses are satisfiable (a hand-written copy of the pinned tables + the harness's P, W) -/
+
+def exEnv : Env :=
+  Env.ofTables ["eager_base", "normalize_base", "lazy_base", "P", "W1", "W2", "W3"]
+    [("eager", ["eager_base", "normalize_base", "reflect"]), ("lazy", ["lazy_base", "reflect"]),
+     ("W", ["W1", "W2", "W3"])]
+    [("eager_base", ["num"]), ("normalize_base", ["num"]), ("P", ["a", "bin"]), ("W2", ["b"]), ("W3", ["a", "b"])]
+    ["P", "W1", "W2", "W3"] ["num", "bin"] ["S"]
+
+def exEager : I := .prio (some "eager") [.disp "eager_base", .disp "normalize_base", .reflect]
+def exLazy : I := .prio (some "lazy") [.disp "lazy_base", .reflect]
+def exBase : Stack := [.reflect, exEager]
+
+def isOk {α : Type} : Except Err α → Bool
+  | .ok _ => true
+  | .error _ => false
+
+def nestNamed (env : Env) (names : List String) (s : Stack) : Except Err Stack :=
+  names.foldl (fun acc n => match acc with
+    | .error e => .error e
+    | .ok s => enter env (.named n) s) (.ok s)
+
+/-- the names resolve to the objects above; the base stack is total and well-formed -/
+example : (exEnv.named "eager").map I.canon = some "eager" := by decide
+example : (exBase.all I.isTotal && allWF exBase) = true := by decide
+/-- `with W: with W:` is accepted (9 sub-interpretations), a third `with W:` is refused … -/
+example : isOk (nestNamed exEnv ["W", "W"] exBase) = true := by decide
+example : (match nestNamed exEnv ["W", "W", "W"] exBase with
+    | .error .assertOverflow => true | _ => false) = true := by decide
+/-- … so `enter_failure_leaves_stack` and `enterI_overflow` are not vacuous. -/
+example : (match exec exEnv (.withI (.named "W") (.withI (.named "W") (.withI (.named "W") .obs))) ⟨exBase, []⟩ with
+    | (.exc .assertOverflow, st) => canonStack st.stack == "reflect,eager" && st.log.length == 0
+    | _ => false) = true := by decide
+/-- `partial_falls_through`: `with lazy: with W: with P:` answers `a` by P, `b` by W2, `num` by reflect. -/
+example : (match nestNamed exEnv ["lazy", "W", "P"] exBase with
+    | .ok s => (s.getLast?.map fun t => (handler exEnv "a" t, handler exEnv "b" t, handler exEnv "num" t))
+        == some (some "P", some "W2", some "reflect")
+    | _ => false) = true := by decide
+/- an exception raised inside a rule, inside the tape's temporary push, inside a decorated call:
+    everything is unwound, and the rule saw the tape's extra entry. -/
+set_option maxRecDepth 16384 in
+example : (match exec exEnv (.withI (.named "P") (.deco .tape (.probe "bin" true))) ⟨exBase, []⟩ with
+    | (.exc .probe, st) => canonStack st.stack == "reflect,eager" &&
+        st.log.map (Obs.canon fun _ => true) ==
+          ["?bin=P@reflect,eager,[P eager_base normalize_base reflect]," ++
+           "[tape([P eager_base normalize_base reflect]) P eager_base normalize_base reflect]," ++
+           "[P eager_base normalize_base reflect]"]
+    | _ => false) = true := by decide
 
 end FV.Props.C17
